@@ -38,7 +38,7 @@ RULE = (
     "fault site set) cases"
 )
 BOUNDS = {
-    "quick": "TREE(N<=3) steps x single faults; BUILTIN machine x single faults; hooks (all 12 hook kinds, 5 lifecycle scenarios); ABORT family",
+    "quick": "TREE(N<=3) steps x single faults; BUILTIN machine x single faults; hooks (all 12 hook kinds, 5 lifecycle scenarios) and output callables of the final state and of the machine; ABORT family",
     "thorough": "TREE(N<=3) steps x single and paired faults; TREE(4) x single faults; BUILTIN x pairs; hooks; ABORT family",
 }
 ASSUMPTIONS = [
@@ -518,13 +518,22 @@ def explore_abort() -> Dict[str, Any]:
 LIFE_SCENARIOS = {"svc-ok": ["GO"], "svc-fails-unhandled": ["BAD"], "svc-fails-handled": ["BAD2"], "final": ["FIN"], "action-raises": ["ACT"]}
 
 
-def life_cfg() -> Dict[str, Any]:
-    return {"id": "m", "initial": "idle", "states": {
+def life_cfg(rec=None) -> Dict[str, Any]:
+    def out_cb(name, value):
+        def f(args):
+            if rec is not None:
+                rec.log.append(("CB", name))
+                if rec.fault is not None:
+                    rec.fault("callback", name)
+            return value
+        return f
+
+    return {"id": "m", "initial": "idle", "output": out_cb("machine_output", {"m": 1}), "states": {
         "idle": {"on": {"GO": "work", "BAD": "bad", "BAD2": "bad2", "FIN": "fin", "ACT": {"actions": ["mk:a1", "boom", "mk:a2"]}}},
         "work": {"invoke": {"id": "ok", "src": "svc_ok", "onDone": {"target": "idle", "actions": ["mk:done"]}}},
         "bad": {"invoke": {"id": "ko", "src": "svc_fail"}},
         "bad2": {"invoke": {"id": "ko2", "src": "svc_fail", "onError": {"target": "idle", "actions": ["mk:handled"]}}},
-        "fin": {"type": "final"}}}
+        "fin": {"type": "final", "output": out_cb("final_output", {"f": 1})}}}
 
 
 def explore_lifecycle_hooks() -> Dict[str, Any]:
@@ -550,7 +559,8 @@ def explore_lifecycle_hooks() -> Dict[str, Any]:
         def boom(i, c, e, a):
             raise ValueError("action fails")
 
-        h = Harness(life_cfg(), services={"svc_ok": svc_ok, "svc_fail": svc_fail}, extra_actions={"boom": boom}, with_plugin=True, threads=True)
+        h = Harness({"id": "x", "states": {}}, services={"svc_ok": svc_ok, "svc_fail": svc_fail}, extra_actions={"boom": boom}, with_plugin=True, threads=True)
+        h.cfg = life_cfg(h.rec)
         d = h.driver(engine)
         try:
             d.rec.fault = fault
@@ -563,6 +573,7 @@ def explore_lifecycle_hooks() -> Dict[str, Any]:
             d.rec.fault = None
             log = list(d.rec.log)
             return dict(markers=[e[1] for e in log if e[0] == "A"], hooks=[e[0] for e in log if e[0] in HOOK_TAGS],
+                        callbacks=[e[1] for e in log if e[0] == "CB"],
                         state=before_stop[:3], after=d.observe()[:3], errs=[repr(e) if e is not None else None for e in errs])
         finally:
             d.close()
@@ -585,7 +596,22 @@ def explore_lifecycle_hooks() -> Dict[str, Any]:
                             what=f"{engine}: {clause}: hook occurrence {i} ({twin['hooks'][i]}) raising in scenario {scen}: {key} {out[key]} vs fault-free {twin[key]}",
                             size=i, replay=dict(kind="life", engine=engine, scenario=scen, site=i)))
                         break
-            res["samples"].append(dict(kind="lifecycle hooks", engine=engine, scenario=scen, hook_occurrences=n_hooks, hooks=twin["hooks"]))
+            # output callables (final state's and the machine's) raising: only the output may change
+            for i, cbname in enumerate(twin["callbacks"]):
+                fault, st = injector(None, ("callback",), [i])
+                out = run(engine, evs, fault)
+                res["executions"] += 1
+                res["evaluations"] += 1
+                res["distinct_count"] += 1
+                for key, clause in (("markers", "output-fault-changed-actions"), ("state", "output-fault-changed-outcome"),
+                                    ("after", "output-fault-changed-outcome"), ("errs", "output-fault-escaped")):
+                    if out[key] != twin[key]:
+                        res["violations"].append(dict(
+                            signature=f"C07|{clause}|{engine}|callback:{cbname}", clause=clause,
+                            what=f"{engine}: {clause}: output callable occurrence {i} ({cbname}) raising in scenario {scen}: {key} {out[key]} vs fault-free {twin[key]}",
+                            size=i, replay=dict(kind="life", engine=engine, scenario=scen, site=i)))
+                        break
+            res["samples"].append(dict(kind="lifecycle hooks", engine=engine, scenario=scen, hook_occurrences=n_hooks, hooks=twin["hooks"], output_callables=twin["callbacks"]))
     return res
 
 
